@@ -35,7 +35,7 @@ FFX="top.get_all_update_ff()"
 AC="top._dag.all_constraints"
 ORD=lambda a,b: f"(({a}, {b}) in {AC} or ({b}, {a}) in {AC})"
 
-MONO="forall(p, implies(p in pre(impl_constraints), p in impl_constraints))"
+MONO="forall(p, implies(p in pre(impl_constraints), p in impl_constraints)) and forall(p, o, implies(o in pre(at(constraint_objs, p)), o in at(constraint_objs, p)))"
 KEEP=["forall(k, at(read_upblks, k) == pre(at(read_upblks, k)))","forall(k, at(write_upblks, k) == pre(at(write_upblks, k)))"]
 def build(local,inner):
   return {f'for blk, {inner} in data.items()':Loop(invariant=[f"forall(k, b, (b in at({local}, k)) == (b in pre(at({local}, k)) or (b in seen and k in at(data, b))))"], modifies=[local]),
@@ -96,34 +96,38 @@ def contracts():
     loops[h]=Loop(invariant=KEEP, modifies=['U_U','constraint_objs','read_upblks','write_upblks'])
   # ---- implicit, from the reader's side
   loops['in read_upblks.items()']=Loop(invariant=[MONO,
-      f"forall(r, a, b, implies(r in seen and b in at(read_upblks, r), forall_int(i, implies(i >= 0 and {CHAIN('r','i')} and a in at(write_upblks, anc(r, i)) and not (a in update_ff) and a != b, (a, b) in impl_constraints))))",
-      "forall(r, w, a, b, implies(r in seen and is_signal(r) and w in get_sibling_slices(r) and slice_overlap(w, r) and b in at(read_upblks, r) and a in at(write_upblks, w) and not (a in update_ff) and a != b, (a, b) in impl_constraints))"],
+      f"forall(r, a, b, implies(r in seen and b in at(read_upblks, r), forall_int(i, implies(i >= 0 and {CHAIN('r','i')} and a in at(write_upblks, anc(r, i)) and not (a in update_ff) and a != b, (a, b) in impl_constraints and r in at(constraint_objs, (a, b))))))",
+      "forall(r, w, a, b, implies(r in seen and is_signal(r) and w in get_sibling_slices(r) and slice_overlap(w, r) and b in at(read_upblks, r) and a in at(write_upblks, w) and not (a in update_ff) and a != b, (a, b) in impl_constraints and r in at(constraint_objs, (a, b))))"],
       modifies=['impl_constraints','constraint_objs'])
   loops['while x.is_signal()#1']=Loop(invariant=["g_j >= 0 and x == anc(obj, g_j)", INW,
       "forall_int(i, implies(0 <= i and i < g_j, is_signal(anc(obj, i)) and implies(anc(obj, i) in dom(write_upblks), anc(obj, i) in elems(writers))))"], modifies=['writers'], ghost=['g_j'])
   loops['in obj.get_sibling_slices()']=Loop(invariant=[INW,"forall(y, implies(y in pre(elems(writers)), y in elems(writers)))",
       "forall(y, implies(y in seen and slice_overlap(y, obj) and y in dom(write_upblks), y in elems(writers)))"], modifies=['writers'])
   loops['for writer in writers']=Loop(invariant=[MONO,
-      "forall(y, a, b, implies(y in seen and a in at(write_upblks, y) and not (a in update_ff) and b in at(read_upblks, obj) and a != b, (a, b) in impl_constraints))"], modifies=['impl_constraints','constraint_objs'])
+      "forall(y, a, b, implies(y in seen and a in at(write_upblks, y) and not (a in update_ff) and b in at(read_upblks, obj) and a != b, (a, b) in impl_constraints and obj in at(constraint_objs, (a, b))))"], modifies=['impl_constraints','constraint_objs'])
   loops['for wr_blk in write_upblks[writer]']=Loop(invariant=[MONO,
-      "forall(a, b, implies(a in seen and not (a in update_ff) and b in at(read_upblks, obj) and a != b, (a, b) in impl_constraints))"], modifies=['impl_constraints','constraint_objs'])
-  loops['for rd_blk in rd_blks']=Loop(invariant=[MONO,"forall(b, implies(b in seen and wr_blk != b, (wr_blk, b) in impl_constraints))"], modifies=['impl_constraints','constraint_objs'])
+      "forall(a, b, implies(a in seen and not (a in update_ff) and b in at(read_upblks, obj) and a != b, (a, b) in impl_constraints and obj in at(constraint_objs, (a, b))))"], modifies=['impl_constraints','constraint_objs'])
+  loops['for rd_blk in rd_blks']=Loop(invariant=[MONO,"forall(b, implies(b in seen and wr_blk != b, (wr_blk, b) in impl_constraints and obj in at(constraint_objs, (wr_blk, b))))"], modifies=['impl_constraints','constraint_objs'])
   # ---- implicit, from the writer's side
   loops['in write_upblks.items()']=Loop(invariant=[MONO,
-      f"forall(w, a, b, implies(w in seen and a in at(write_upblks, w) and not (a in update_ff), forall_int(i, implies(i >= 0 and {CHAIN('w','i')} and b in at(read_upblks, anc(w, i)) and a != b, (a, b) in impl_constraints))))"],
+      f"forall(w, a, b, implies(w in seen and a in at(write_upblks, w) and not (a in update_ff), forall_int(i, implies(i >= 0 and {CHAIN('w','i')} and b in at(read_upblks, anc(w, i)) and a != b, (a, b) in impl_constraints and w in at(constraint_objs, (a, b))))))"],
       modifies=['impl_constraints','constraint_objs'])
   loops['while x.is_signal()#2']=Loop(invariant=["g_j >= 0 and x == anc(obj, g_j)", INR,
       "forall_int(i, implies(0 <= i and i < g_j, is_signal(anc(obj, i)) and implies(anc(obj, i) in dom(read_upblks), anc(obj, i) in elems(readers))))"], modifies=['readers'], ghost=['g_j'])
   loops['for wr_blk in wr_blks']=Loop(invariant=[MONO,
-      "forall(a, y, b, implies(a in seen and not (a in update_ff) and y in elems(readers) and b in at(read_upblks, y) and a != b, (a, b) in impl_constraints))"], modifies=['impl_constraints','constraint_objs'])
-  loops['for reader in readers']=Loop(invariant=[MONO,"forall(y, b, implies(y in seen and b in at(read_upblks, y) and wr_blk != b, (wr_blk, b) in impl_constraints))"], modifies=['impl_constraints','constraint_objs'])
-  loops['for rd_blk in read_upblks[reader]']=Loop(invariant=[MONO,"forall(b, implies(b in seen and wr_blk != b, (wr_blk, b) in impl_constraints))"], modifies=['impl_constraints','constraint_objs'])
+      "forall(a, y, b, implies(a in seen and not (a in update_ff) and y in elems(readers) and b in at(read_upblks, y) and a != b, (a, b) in impl_constraints and obj in at(constraint_objs, (a, b))))"], modifies=['impl_constraints','constraint_objs'])
+  loops['for reader in readers']=Loop(invariant=[MONO,"forall(y, b, implies(y in seen and b in at(read_upblks, y) and wr_blk != b, (wr_blk, b) in impl_constraints and obj in at(constraint_objs, (wr_blk, b))))"], modifies=['impl_constraints','constraint_objs'])
+  loops['for rd_blk in read_upblks[reader]']=Loop(invariant=[MONO,"forall(b, implies(b in seen and wr_blk != b, (wr_blk, b) in impl_constraints and obj in at(constraint_objs, (wr_blk, b))))"], modifies=['impl_constraints','constraint_objs'])
   # ---- final: explicit constraints plus every implicit one that no explicit constraint inverts
   loops['in impl_constraints']=Loop(invariant=[f"forall(p, implies(p in U_U, p in {AC}))", f"forall(a, b, implies((a, b) in seen and not ((b, a) in U_U), (a, b) in {AC}))"], modifies=[AC])
   ens=(f"forall(r, a, b, implies({RD('b','r')} and not (a in {FFX}) and a != b, forall_int(i, implies(i >= 0 and {CHAIN('r','i')} and {WR('a','anc(r, i)')}, {ORD('a','b')})))) and "
        f"forall(r, w, a, b, implies(is_signal(r) and w in get_sibling_slices(r) and slice_overlap(w, r) and {RD('b','r')} and {WR('a','w')} and not (a in {FFX}) and a != b, {ORD('a','b')})) and "
        f"forall(w, a, b, implies({WR('a','w')} and not (a in {FFX}) and a != b, forall_int(i, implies(i >= 0 and {CHAIN('w','i')} and {RD('b','anc(w, i)')}, {ORD('a','b')})))) and "
-       f"forall(p, implies(p in top._dsl.all_U_U_constraints, p in {AC}))")
+       f"forall(p, implies(p in top._dsl.all_U_U_constraints, p in {AC})) and "
+       # the signal that made the pair an (implicit) constraint is recorded for it: the read signal (reader-side rules), the written signal (writer-side rule)
+       f"forall(r, a, b, implies({RD('b','r')} and not (a in {FFX}) and a != b, forall_int(i, implies(i >= 0 and {CHAIN('r','i')} and {WR('a','anc(r, i)')}, r in at(top._dag.constraint_objs, (a, b)))))) and "
+       f"forall(r, w, a, b, implies(is_signal(r) and w in get_sibling_slices(r) and slice_overlap(w, r) and {RD('b','r')} and {WR('a','w')} and not (a in {FFX}) and a != b, r in at(top._dag.constraint_objs, (a, b)))) and "
+       f"forall(w, a, b, implies({WR('a','w')} and not (a in {FFX}) and a != b, forall_int(i, implies(i >= 0 and {CHAIN('w','i')} and {RD('b','anc(w, i)')}, w in at(top._dag.constraint_objs, (a, b))))))")
   return [Contract(f'{F}::GenDAGPass._process_value_constraints', view={'self':ObjK('Pass'),'top':TopT()},
     cases=[Case('any', requires='True', ensures=ens,
       source="C02: 'a block that writes any bit of a signal runs before every block that reads an overlapping bit of that signal - through whole signals, struct fields, nested fields and "
@@ -133,7 +137,7 @@ def contracts():
     loops=loops, ghost_init=ghost_init, ghost_hooks={'x = obj':h_start,'x = x.get_parent_object()':h_up},
     abstract_lists={'writers':'bag','readers':'bag'},
     pure_methods={'is_signal':1,'get_parent_object':1,'get_sibling_slices':1,'slice_overlap':2},
-    modifies=['top._dsl.all_U_U_constraints','top._dag.constraint_objs','top._dag.all_constraints'], returns=None, property_ids=('C02',), sample=_sample, json_args=(lambda a: a['top'].__spec__, _build),
+    modifies=['top._dsl.all_U_U_constraints','top._dag.constraint_objs','top._dag.all_constraints'], returns=None, property_ids=('C02','C11'), sample=_sample, json_args=(lambda a: a['top'].__spec__, _build),
     note="signal structure methods are pure uninterpreted functions (assumption); the explicit-constraint loops are covered by their frame only (they add pairs to U_U, all of which reach all_constraints)")]
 
 def register(reg):
